@@ -68,8 +68,17 @@ func Check18(c Case18, r *core.Rec) {
 	if rich {
 		depth = 16
 	}
-	a := c.Web.Render(c.A, depth, rich, rich)
-	b := c.Web.Render(c.B, depth, rich, rich)
+	// host characters: one level of escapes is decoded by the standard's host parser; nested levels
+	// only by the two profiles that parse hosts laxly and then decode them repeatedly
+	hostDepth := 0
+	if rich {
+		hostDepth = 1
+		if c.Profile.experimental() {
+			hostDepth = depth
+		}
+	}
+	a := c.Web.RenderH(c.A, depth, hostDepth, rich, rich)
+	b := c.Web.RenderH(c.B, depth, hostDepth, rich, rich)
 	plain := c.Web.Render(Spelling{}, 0, false, false)
 	r.Class("profile:" + c.Profile.Name)
 	kinds := map[string]bool{}
@@ -111,8 +120,8 @@ func Check18(c Case18, r *core.Rec) {
 	// URL itself has a ".." segment, a spelling uses a nested dot, and the failure disappears when the
 	// same spellings write their dots single-level.
 	if rich && hasSeg(c.Web, "..") && (usesNestedDots(c.A) || usesNestedDots(c.B)) {
-		a2, _ := canon(c.Web.Render(c.A, depth, false, rich))
-		b2, _ := canon(c.Web.Render(c.B, depth, false, rich))
+		a2, _ := canon(c.Web.RenderH(c.A, depth, hostDepth, false, rich))
+		b2, _ := canon(c.Web.RenderH(c.B, depth, hostDepth, false, rich))
 		if a2 == b2 && a2 == cp {
 			r.Known("KF-C18-nested-dots", "%s: %s -> %s but %s -> %s", c.Profile, quote(a), quote(ca), quote(b), quote(cb))
 			return
@@ -183,7 +192,7 @@ func Gen18(t *rapid.T) Case18 {
 
 var P18 = core.Register(core.Prop[Case18]{
 	ID: "C18",
-	Rule: "an abstract ordinary web URL (grammar of C17, decoded) rendered in two independently drawn spellings A and B; for GoogleSafeBrowsing, Semantic and composed profiles with repeated percent-decoding all listed variations (scheme/host case, per-character optional or nested percent-encoding with random hex case, explicit default port or empty port, inserted '.' and 'x/..' segments also spelled %2e / %2E / nested %252e, tabs/newlines, surrounding C0/space, bare '#'); for WhatWg, WhatWgSortQuery and decoding-free compositions only the subset the standard normalises (case, default port, literal and single-level %2e dot segments, tabs/newlines, surrounding whitespace); " +
+	Rule: "an abstract ordinary web URL (grammar of C17, decoded) rendered in two independently drawn spellings A and B; for GoogleSafeBrowsing, Semantic and composed profiles with repeated percent-decoding all listed variations (scheme/host case, per-character optional or nested percent-encoding with random hex case — also of the characters of a domain host (one level for composed profiles, whose strict host parser rejects a '%' left after decoding once; nested for the two experimental profiles) —, explicit default port or empty port, inserted '.' and 'x/..' segments also spelled %2e / %2E / nested %252e, tabs/newlines, surrounding C0/space, bare '#'); for WhatWg, WhatWgSortQuery and decoding-free compositions only the subset the standard normalises (case, default port, literal and single-level %2e dot segments, tabs/newlines, surrounding whitespace); " +
 		"oracle: p.Parse(A).String() == p.Parse(B).String() == p.Parse(plain rendering).String(); " +
 		"non-trivial = A and B differ textually and at least 2 kinds of variation were applied; distinct by hash of the case",
 	Gen:   Gen18,
